@@ -629,7 +629,7 @@ class C15:
                         lim_ok = all(l is None or l[0] <= v <= l[1] for l, v in zip(spec["limits"], kb))
                     if lim_ok and not all(w.within_tol(cur, dt)):
                         p0, p1 = w.penalty(kb, dt), w.penalty(cur, dt)
-                        if p1 > p0 * (1 + 1e-9) + 1e-300:
+                        if p1 > p0 * (1 + 1e-9) + w.penalty_noise(cur, dt) + 1e-300:
                             raise OViolation(prop + ".ends_worse", "%s: the call started at penalty %r (knobs %s) and ended at %r (knobs %s), "
                                              "not within tolerance" % (where, p0, kb, p1, cur))
                         count("start_end_penalty_checks")
